@@ -370,6 +370,7 @@ func runC19(c *Ctx) {
 	}
 
 	checkToolOutputRules(c, p)
+	checkEveryFileMatchedAndPrinted(c, p)
 
 	// ---- R19.10 what is recorded for a file is built from that file's matches -----------
 	// every value appended to the result list is a LicenseType built by a composite literal of this call (whose fields
@@ -1774,4 +1775,179 @@ func nonEmptyOnAllPaths(fn *ssa.Function, from, to *ssa.BasicBlock, res ssa.Valu
 		}
 	}
 	return true, len(paths), ""
+}
+
+
+// checkEveryFileMatchedAndPrinted: two rules on "prints, for each file, exactly the matches Match returns".
+// R19.17 every file that could be read is matched: in the backend the call of the library's Match stands behind tests of
+// errors only - not behind a judgement on the contents (binary, too large, wrong encoding).
+// R19.16 what is printed is the list of results itself: the loop that prints ranges over what GetResults returned (sorted
+// in place), not over a list that another function made of it (de-duplicated, filtered, capped).
+func checkEveryFileMatchedAndPrinted(c *Ctx, p *core.Prog) {
+	isErrTest := func(cond ssa.Value) bool {
+		bo, ok := cond.(*ssa.BinOp)
+		if !ok || (bo.Op != token.EQL && bo.Op != token.NEQ) {
+			return false
+		}
+		for _, pair := range [][2]ssa.Value{{bo.X, bo.Y}, {bo.Y, bo.X}} {
+			if cst, isC := pair[1].(*ssa.Const); isC && cst.IsNil() && pair[0].Type().String() == "error" {
+				return true
+			}
+		}
+		return false
+	}
+	nM := 0
+	for _, f := range pkgFuncs(p, backendPkg) {
+		for _, ff := range core.WithAnon(f) {
+			if ff != f && ff.Parent() != f {
+				continue
+			}
+			cdeps := core.NewPostDom(ff).TransitiveControlDeps()
+			heads := map[*ssa.BasicBlock]bool{}
+			for _, rl := range rangeLoopsOf(ff) {
+				heads[rl.header] = true
+			}
+			for _, call := range core.CallsIn(ff) {
+				n := core.StaticCalleeName(call.Common())
+				if !strings.HasSuffix(n, "/v2.Classifier).Match") && !strings.HasSuffix(n, "/v2.Classifier).MatchFrom") {
+					continue
+				}
+				nM++
+				bad := ""
+				for d := range cdeps[call.Block()] {
+					if heads[d] {
+						continue
+					}
+					ifi, ok := d.Instrs[len(d.Instrs)-1].(*ssa.If)
+					if ok && !isErrTest(ifi.Cond) {
+						bad = p.Pos(ifi.Cond.Pos())
+					}
+				}
+				// Match inside a function literal: where the enclosing function calls that literal counts as well
+				if par := ff.Parent(); par != nil && bad == "" {
+					pdeps := core.NewPostDom(par).TransitiveControlDeps()
+					pheads := map[*ssa.BasicBlock]bool{}
+					for _, rl := range rangeLoopsOf(par) {
+						pheads[rl.header] = true
+					}
+					for _, pc := range core.CallsIn(par) {
+						if eng.ResolveCallee(pc.Common().Value) != ff {
+							continue
+						}
+						for d := range pdeps[pc.Block()] {
+							if pheads[d] {
+								continue
+							}
+							ifi, ok := d.Instrs[len(d.Instrs)-1].(*ssa.If)
+							if ok && !isErrTest(ifi.Cond) {
+								bad = p.Pos(ifi.Cond.Pos())
+							}
+						}
+					}
+				}
+				c.R.Check(bad == "", "R19.17", core.ShortFn(ff)+": the library's Match is called for every file that could be read", p.Pos(call.Pos()), "behind error tests only",
+					"whether a file is matched at all depends on a test that is not an error test (at "+bad+"): files the test rejects are silently not reported, although Match may find a license in them")
+			}
+		}
+	}
+	c.R.RequireMin("R19.17", "calls of the library's Match in the backend", nM, 1)
+
+	// R19.16
+	mainFn := p.Func(cliPkg, "main")
+	if mainFn == nil {
+		return
+	}
+	isGetResults := func(call ssa.CallInstruction) bool {
+		if cal := call.Common().StaticCallee(); cal != nil {
+			return cal.Name() == "GetResults"
+		}
+		return call.Common().IsInvoke() && call.Common().Method.Name() == "GetResults"
+	}
+	var isResults func(v ssa.Value, depth int) bool
+	isResults = func(v ssa.Value, depth int) bool {
+		v = core.Unspill(v)
+		switch x := v.(type) {
+		case *ssa.Call:
+			if isGetResults(x) {
+				return true
+			}
+			// a helper of the tool that fetches the results itself and hands them back
+			g := x.Call.StaticCallee()
+			if g == nil || core.FuncPkgPath(g) != cliPkg || depth > 2 {
+				return false
+			}
+			var got ssa.Value
+			for _, inner := range core.CallsIn(g) {
+				if isGetResults(inner) {
+					got = inner.Value()
+				}
+			}
+			if got == nil {
+				return false
+			}
+			for _, b := range g.Blocks {
+				if ret, ok := b.Instrs[len(b.Instrs)-1].(*ssa.Return); ok && b != g.Recover {
+					if len(ret.Results) == 0 || core.Unspill(ret.Results[0]) != got {
+						return false
+					}
+				}
+			}
+			return true
+		case *ssa.Parameter:
+			fn := x.Parent()
+			idx := -1
+			for k, q := range fn.Params {
+				if q == x {
+					idx = k
+				}
+			}
+			sites, escapes := eng.CallSitesOf(fn)
+			if idx < 0 || escapes || len(sites) == 0 || depth > 2 {
+				return false
+			}
+			for _, cs := range sites {
+				if idx >= len(cs.Common().Args) || !isResults(cs.Common().Args[idx], depth+1) {
+					return false
+				}
+			}
+			return true
+		case *ssa.Phi:
+			for _, e := range x.Edges {
+				if !isResults(e, depth+1) {
+					return false
+				}
+			}
+			return len(x.Edges) > 0
+		}
+		return false
+	}
+	nP := 0
+	for _, f := range pkgClosure(mainFn, cliPkg) {
+		for _, rl := range rangeLoopsOf(f) {
+			if !strings.HasSuffix(core.TypeName(rl.over.Type()), "/results.LicenseTypes") {
+				continue
+			}
+			loop := naturalLoop(rl.header)
+			prints := false
+			for _, b := range f.Blocks {
+				if !loop[b] {
+					continue
+				}
+				for _, in := range b.Instrs {
+					if call, ok := in.(*ssa.Call); ok {
+						if n := core.StaticCalleeName(&call.Call); n == "fmt.Printf" || n == "fmt.Println" || n == "fmt.Fprintf" || n == "fmt.Print" || n == "fmt.Fprintln" {
+							prints = true
+						}
+					}
+				}
+			}
+			if !prints {
+				continue
+			}
+			nP++
+			c.R.Check(isResults(rl.over, 0), "R19.16", core.ShortFn(f)+": the loop that prints ranges over the results as the backend returned them", p.Pos(rl.header.Instrs[0].Pos()), "the ranged list is what GetResults returned",
+				"the list that is printed is not the list GetResults returned but something another function made of it: matches that function leaves out (repeated names, say) are not printed although Match returned them")
+		}
+	}
+	c.R.RequireMin("R19.16", "loops that print the results", nP, 1)
 }
